@@ -5,7 +5,8 @@
 // `events_when_not_synced`.
 // Contract (from the property): after every notification the downlink state equals the fold of the notifications received
 // since it linked -- whether or not it is synced and whether or not events before sync are enabled; lifecycle callbacks fire
-// exactly when dispatch is enabled, in order, with the removed/old/new values; on_synced sees the state of that moment.
+// exactly when dispatch is enabled, in order, with the removed/old/new values and the map as it is at that moment; on_synced
+// sees the state of that moment.
 use super::*;
 use crate::model::lifecycle::VerifOnRemove as OnRemove;   // (the trait is not re-exported; alias added in the scratch copy)
 use crate::model::lifecycle::{OnClear, OnLinked, OnSynced, OnUnlinked, OnUpdate};
@@ -47,8 +48,8 @@ impl OnUpdate<i32, i32> for Rec {
 }
 impl OnRemove<i32, i32> for Rec {
     type OnRemoveFut<'a> = Ready<()> where Self: 'a;
-    fn on_remove<'a>(&'a mut self, key: i32, _map: &'a M, removed: i32) -> Self::OnRemoveFut<'a> {
-        self.log.push(format!("remove({key},{removed})"));
+    fn on_remove<'a>(&'a mut self, key: i32, map: &'a M, removed: i32) -> Self::OnRemoveFut<'a> {
+        self.log.push(format!("remove({key},{removed},{:?})", map));
         ready(())
     }
 }
@@ -138,7 +139,7 @@ fn model_step(st: &mut MState, n: N, events_when_not_synced: bool, log: &mut Vec
                 N::Remove(k) => {
                     if let Some(old) = map.remove(&k) {
                         if dispatch {
-                            log.push(format!("remove({k},{old})"));
+                            log.push(format!("remove({k},{old},{:?})", map));
                         }
                     }
                 }
@@ -153,7 +154,9 @@ fn model_step(st: &mut MState, n: N, events_when_not_synced: bool, log: &mut Vec
                     for (k, v) in removed {
                         map.remove(&k);
                         if dispatch {
-                            log.push(format!("remove({k},{v})"));
+                            // the map handed to on_remove is the downlink's map at that moment (the key just removed is
+                            // gone, everything not yet removed is still there) -- as the agent-hosted downlink does
+                            log.push(format!("remove({k},{v},{:?})", map));
                         }
                     }
                 }
@@ -162,7 +165,9 @@ fn model_step(st: &mut MState, n: N, events_when_not_synced: bool, log: &mut Vec
                     for (k, v) in removed {
                         map.remove(&k);
                         if dispatch {
-                            log.push(format!("remove({k},{v})"));
+                            // the map handed to on_remove is the downlink's map at that moment (the key just removed is
+                            // gone, everything not yet removed is still there) -- as the agent-hosted downlink does
+                            log.push(format!("remove({k},{v},{:?})", map));
                         }
                     }
                 }
